@@ -54,3 +54,25 @@ func TestReplay_C08_AnnouncedOncePerSubscriber(t *testing.T) {
 		}
 	})
 }
+
+// Replay for post#one-each / inv-pres#count of (*DeviceLocal).NotifySubscribers (C08): every subscriber of the feature
+// is sent the notification, also when sending to an earlier subscriber fails (its connection has no writer).
+func TestReplay_C08_FanOutContinuesAfterAFailingSubscriber(t *testing.T) {
+	w := rpNewWorld(t, 2)
+	s1 := w.localFeature(model.FeatureTypeTypeLoadControl, model.RoleTypeServer)
+	s1.AddFunctionType(model.FunctionTypeLoadControlLimitListData, true, true)
+	sm := w.local.SubscriptionManager()
+	for _, p := range w.peers {
+		c := p.feature(model.FeatureTypeTypeLoadControl, model.RoleTypeClient)
+		if err := sm.AddSubscription(p.dev, rpSubReq(c.Address(), s1.Address(), model.FeatureTypeTypeLoadControl)); err != nil {
+			t.Fatalf("setup: %v", err)
+		}
+	}
+	// the first subscriber's connection loses its writer: every send to it fails
+	w.peers[0].dev.sender.(*Sender).writeHandler = nil
+	before := w.peers[1].writer.count()
+	s1.SetData(model.FunctionTypeLoadControlLimitListData, rpLimits(1, 2, 3))
+	if got := w.peers[1].writer.count() - before; got != 1 {
+		t.Fatalf("C08 violated: the second subscriber received %d notifications (want 1) after the send to the first one failed", got)
+	}
+}
